@@ -39,6 +39,10 @@ K = {
  "g KeyIndices":           ("pkg/slice/slice.go",          "GoCode_KeyIndices_proofs.v"),
  "h encodeObjTypeAndLen":  ("pkg/encoding/packfile/packfile.go", "GoCode_Packfile_proofs.v"),
  "i childrenFirst":        ("pkg/prune/prune.go",          "GoCode_ChildrenFirst_proofs.v"),
+ "iii CombineRowBytesIntoBlock": ("pkg/objects/block.go",  "GoCode_Block_proofs.v"),
+ "v IndicesToValues":      ("pkg/slice/slice.go",          "GoCode_Cols_proofs.v"),
+ "v CopyValuesFromIndices":("pkg/slice/slice.go",          "GoCode_Cols_proofs.v"),
+ "v removeCols":           ("pkg/sorter/sorter.go",        "GoCode_Cols_proofs.v"),
 }
 # (kernel, kind, description, old text, new text)   old must occur exactly once inside the file
 M = [
@@ -126,6 +130,21 @@ M = [
  ("i childrenFirst", "keep", "++ written as += 1", "\t\t\t\tpendingChildren[string(p)]++\n", "\t\t\t\tpendingChildren[string(p)] += 1\n"),
  ("i childrenFirst", "keep", "append to result after the inner loop", "\t\tresult = append(result, sum)\n\t\tfor _, p := range parents[string(sum)] {\n\t\t\tpendingChildren[string(p)]--\n\t\t\tif pendingChildren[string(p)] == 0 {\n\t\t\t\tqueue = append(queue, p)\n\t\t\t}\n\t\t}\n", "\t\tfor _, p := range parents[string(sum)] {\n\t\t\tpendingChildren[string(p)]--\n\t\t\tif pendingChildren[string(p)] == 0 {\n\t\t\t\tqueue = append(queue, p)\n\t\t\t}\n\t\t}\n\t\tresult = append(result, sum)\n"),
  ("i childrenFirst", "keep", "len(queue) != 0", "for len(queue) > 0 {", "for len(queue) != 0 {"),
+ ("iii CombineRowBytesIntoBlock", "break", "rows written from offset 0", "\tbinary.BigEndian.PutUint32(b, uint32(n))\n\toff := 4\n\tfor _, row := range blk {", "\tbinary.BigEndian.PutUint32(b, uint32(n))\n\toff := 0\n\tfor _, row := range blk {"),
+ ("iii CombineRowBytesIntoBlock", "break", "count written as n+1", "binary.BigEndian.PutUint32(b, uint32(n))\n\toff := 4\n\tfor _, row := range blk {", "binary.BigEndian.PutUint32(b, uint32(n+1))\n\toff := 4\n\tfor _, row := range blk {"),
+ ("iii CombineRowBytesIntoBlock", "break", "guard n >= maxUint32", "\tn := len(blk)\n\tif n > maxUint32 {\n\t\tpanic(fmt.Errorf(\"block length is too long (%d > 4294967296)\", n))\n\t}\n\tbinary.BigEndian.PutUint32(b, uint32(n))\n\toff := 4", "\tn := len(blk)\n\tif n >= maxUint32 {\n\t\tpanic(fmt.Errorf(\"block length is too long (%d > 4294967296)\", n))\n\t}\n\tbinary.BigEndian.PutUint32(b, uint32(n))\n\toff := 4"),
+ ("iii CombineRowBytesIntoBlock", "keep", "rename variables", "\tfor _, row := range blk {\n\t\tcopy(b[off:], row)\n\t\toff += len(row)\n\t}\n\treturn b", "\tfor _, rb := range blk {\n\t\tcopy(b[off:], rb)\n\t\toff += len(rb)\n\t}\n\treturn b"),
+ ("iii CombineRowBytesIntoBlock", "keep", "off = off + len(row)", "\t\tcopy(b[off:], row)\n\t\toff += len(row)\n", "\t\tcopy(b[off:], row)\n\t\toff = off + len(row)\n"),
+ ("v IndicesToValues", "break", "vals[k+1]", "res = append(res, vals[k])", "res = append(res, vals[k+1])"),
+ ("v IndicesToValues", "break", "result starts with len(keys) empty strings", "res := make([]string, 0, len(keys))\n\tfor _, k := range keys {\n\t\tres = append(res, vals[k])", "res := make([]string, len(keys))\n\tfor _, k := range keys {\n\t\tres = append(res, vals[k])"),
+ ("v IndicesToValues", "keep", "rename variables", "\tfor _, k := range keys {\n\t\tres = append(res, vals[k])\n\t}\n\treturn res", "\tfor _, idx := range keys {\n\t\tres = append(res, vals[idx])\n\t}\n\treturn res"),
+ ("v CopyValuesFromIndices", "break", "dst[k] = src[i]", "dst[i] = src[k]", "dst[k] = src[i]"),
+ ("v CopyValuesFromIndices", "break", "dst[i+1] = src[k]", "dst[i] = src[k]", "dst[i+1] = src[k]"),
+ ("v CopyValuesFromIndices", "keep", "rename variables", "\tfor i, k := range keys {\n\t\tdst[i] = src[k]", "\tfor pos, col := range keys {\n\t\tdst[pos] = src[col]"),
+ ("v removeCols", "break", "keeps the removed columns instead", "\t\tif _, ok := removedCols[i]; ok {\n\t\t\tcontinue\n\t\t}\n\t\tstrs = append(strs, s)", "\t\tif _, ok := removedCols[i]; !ok {\n\t\t\tcontinue\n\t\t}\n\t\tstrs = append(strs, s)"),
+ ("v removeCols", "break", "looks up i+1", "\t\tif _, ok := removedCols[i]; ok {\n\t\t\tcontinue\n\t\t}\n\t\tstrs = append(strs, s)", "\t\tif _, ok := removedCols[i+1]; ok {\n\t\t\tcontinue\n\t\t}\n\t\tstrs = append(strs, s)"),
+ ("v removeCols", "keep", "rename variables", "\tfor i, s := range row {\n\t\tif _, ok := removedCols[i]; ok {\n\t\t\tcontinue\n\t\t}\n\t\tstrs = append(strs, s)\n\t}\n\treturn strs", "\tfor col, cell := range row {\n\t\tif _, drop := removedCols[col]; drop {\n\t\t\tcontinue\n\t\t}\n\t\tstrs = append(strs, cell)\n\t}\n\treturn strs"),
+ ("v removeCols", "keep", "if !ok { append } instead of continue", "\t\tif _, ok := removedCols[i]; ok {\n\t\t\tcontinue\n\t\t}\n\t\tstrs = append(strs, s)\n", "\t\tif _, ok := removedCols[i]; !ok {\n\t\t\tstrs = append(strs, s)\n\t\t}\n"),
 ]
 def sh(cmd, cwd=None, timeout=900):
     t0 = time.time()
